@@ -46,7 +46,9 @@ def strat(tier):
         'umask': st.integers(0, len(UMASKS) - 1),
         'dest': st.one_of(st.none(), st.integers(1, len(PERMS) - 1)),      # None absent, else index of its mode
         'part': st.sampled_from([False, False, True]),
-        'body': st.sampled_from(['normal', 'normal', 'normal', 'raise0', 'raise1', 'raise2', 'race', 'nothing']),
+        'body': st.sampled_from(['normal', 'normal', 'normal', 'raise0', 'raise1', 'raise2', 'race', 'nothing', 'closeraise', 'closereturn']),
+        # the bytes written are identical to what the destination (or the racing writer's file) already holds
+        'same': st.sampled_from([False, False, False, True]),
         'errno': st.integers(0, len(ERRNOS) - 1),
         'pairs': st.booleans(),
         'api': st.sampled_from(['with', 'with', 'explicit', 'reuse']),
@@ -61,13 +63,21 @@ FOREIGN = b'somebody else\'s part file' * 400        # longer than the new conte
 RACE = b'created by a racing writer'
 
 
+def _old(case):
+    return NEW if case.get('same') else OLD
+
+
+def _race(case):
+    return NEW if case.get('same') else RACE
+
+
 def _prepare(sandbox, case):
     for name in os.listdir(sandbox):
         os.unlink(os.path.join(sandbox, name))
     if case['dest'] is not None:
         p = os.path.join(sandbox, 'dest.txt')
         with open(p, 'wb') as f:
-            f.write(OLD)
+            f.write(_old(case))
         os.chmod(p, PERMS[case['dest']])
     if case['part']:
         p = os.path.join(sandbox, 'dest.txt.part')
@@ -119,10 +129,15 @@ def _body(case, sandbox, body_kind, api):
                 if body_kind == 'race' and i == 0:
                     ip.active = False
                     fd = os.open(dest, os.O_WRONLY | os.O_CREAT | os.O_EXCL, 0o644)
-                    os.write(fd, RACE)
+                    os.write(fd, _race(case))
                     os.close(fd)
                     os.chmod(dest, 0o644)
                     ip.active = True
+            if body_kind in ('closeraise', 'closereturn'):
+                # the body closes the file object it was given (nested `with f:`, a wrapper closing its stream) ...
+                f.close()
+                if body_kind == 'closeraise':
+                    raise EXC[case.get('exc', 'plain')]('body failed after closing the file')
         try:
             if api == 'with':
                 with fileutils.atomic_save(dest, **_kwargs(case)) as f:
@@ -187,7 +202,7 @@ def _sh(state):
 def evaluate(case, initial, res, events, fired, state, out, cfg, sandbox):
     """oracle for one run.  Returns False after recording a failure."""
     body_kind = case['body']
-    body_raises = body_kind.startswith('raise')
+    body_raises = body_kind.startswith('raise') or body_kind == 'closeraise'
     dest0 = initial.get('dest.txt')
     part0 = initial.get('dest.txt.part')
     umask = UMASKS[case['umask']]
@@ -196,6 +211,9 @@ def evaluate(case, initial, res, events, fired, state, out, cfg, sandbox):
     refusal = (not case['overwrite']) and (dest0 is not None or body_kind == 'race')
     part_blocks = part0 is not None and not case['overwrite_part']
     completed_expected = not (body_raises or listed_fault or refusal or part_blocks)
+    if body_kind == 'closereturn' and res['outcome'] != 'returned':
+        # a body that closed the file: the saver may finish the save properly or refuse with an exception - not drop it silently
+        completed_expected = False
     fired_desc = [(i, events[i]['kind'], events[i].get('path'), errno.errorcode.get(events[i].get('fault'), '?')) for i in fired]
     where = '%s; injected faults %r; caller saw %r; directory afterwards %r (before: %r)' % (cfg, fired_desc, res, _sh(state), _sh(initial))
     dest1 = state.get('dest.txt')
@@ -230,7 +248,7 @@ def evaluate(case, initial, res, events, fired, state, out, cfg, sandbox):
         # the racing writer created the destination after the first successful write
         first_w = next(i for i, e in enumerate(events) if e['kind'] == 'f.write')
         if not any(i <= first_w for i in fired if events[i]['kind'] in LISTED):
-            exp_dest = (RACE, 0o644)
+            exp_dest = (_race(case), 0o644)
     if dest1 != exp_dest:
         out.fail('c05.destination-changed', 'destination changed by a save that did not complete (expected %s): %s' % (
             None if exp_dest is None else ('%d bytes' % len(exp_dest[0]), oct(exp_dest[1])), where))
@@ -284,7 +302,8 @@ def run(case):
         cfg = 'atomic_save(%s) [%s API], umask %s, destination %s, part file %s, body %s' % (
             ', '.join('%s=%s' % (k, oct(v) if k == 'file_perms' else v) for k, v in sorted(_kwargs(case).items())), case['api'], oct(umask),
             'absent' if case['dest'] is None else 'present mode %s' % oct(PERMS[case['dest']]), 'present' if case['part'] else 'absent',
-            case['body'] + ('(%s)' % EXC[case.get('exc', 'plain')].__name__ if case['body'].startswith('raise') else ''))
+            case['body'] + ('(%s)' % EXC[case.get('exc', 'plain')].__name__ if 'raise' in case['body'] else '') +
+            (', new content identical to the old' if case.get('same') else ''))
         _prepare(sandbox, case)
         initial = _state(sandbox)
         code, res = fsio.run_in_child(sandbox, body, umask=umask)
@@ -295,7 +314,7 @@ def run(case):
         triggered = 0
         if not evaluate(case, initial, res, events, [], _state(sandbox), out, cfg, sandbox):
             return out
-        if (not case['overwrite'] and (case['dest'] is not None or case['body'] == 'race')) or case['body'].startswith('raise') or \
+        if (not case['overwrite'] and (case['dest'] is not None or case['body'] == 'race')) or case['body'].startswith('raise') or case['body'].startswith('close') or \
                 (case['part'] and not case['overwrite_part']):
             triggered += 1
         e1 = ERRNOS[case['errno']]
@@ -339,6 +358,10 @@ def run(case):
             out.label('body_raises:' + case.get('exc', 'plain'))
         if case['api'] == 'reuse':
             out.label('saver_object_reused')
+        if case['body'].startswith('close'):
+            out.label('body_closes_file')
+        if case.get('same') and case['dest'] is not None:
+            out.label('new_content_equals_old')
         return out
     finally:
         shutil.rmtree(sandbox, ignore_errors=True)
